@@ -859,6 +859,7 @@ impl Engine for C04 {
         spaces.push(("programs whose import names something unusual (28 paths x 3 forms)".into(), p_imports()));
         spaces.push(("corpus programs cut after each token (end of text, or one line break, right after it)".into(), p_prefix()));
         spaces.push(("number literals at and around the ends of the integer types, in five places".into(), p_numbers()));
+        spaces.push(("annotations repeating a long non-ASCII key (diagnostics that quote source text, every length and byte alignment)".into(), p_messages()));
         spaces.push(("ordered pairs of generated expressions of <= 2 constructors side by side, unparenthesised, in six list positions".into(), p_pairs()));
         spaces.push(("nesting families".into(), p_nest(thorough)));
         // Parseable programs: the single-module members of the program spaces of C01/C02
@@ -905,6 +906,7 @@ impl Engine for C04 {
             ext.push((format!("{binary}: corpus of valid programs, 0 deviations"), p_corpus()));
             ext.push((format!("{binary}: nesting families"), p_nest(thorough)));
             ext.push((format!("{binary}: programs whose import names something unusual"), p_imports()));
+            ext.push((format!("{binary}: annotations repeating a long non-ASCII key"), p_messages()));
             ext.push((
                 format!("{binary}: one representative per in-process outcome class"),
                 json!({"space": "classes", "last": subject == "lsp"}),
